@@ -2768,7 +2768,12 @@ class HasTraits(CHasTraits, metaclass=MetaHasTraits):
 
     def _sync_trait_items_modified(self, object, name, old, event):
         n0 = event.index
-        n1 = n0 + len(event.removed)
+        if isinstance(n0, slice):
+            # Extended slice: the event's index already selects exactly the
+            # removed items.
+            index = n0
+        else:
+            index = slice(n0, n0 + len(event.removed))
         name = name[:-6]
         info = self.__sync_trait__
         locked = info[""]
@@ -2777,7 +2782,10 @@ class HasTraits(CHasTraits, metaclass=MetaHasTraits):
             object = object()
             if object_name not in object._get_sync_trait_info()[""]:
                 try:
-                    getattr(object, object_name)[n0:n1] = event.added
+                    if isinstance(n0, slice) and len(event.added) == 0:
+                        del getattr(object, object_name)[index]
+                    else:
+                        getattr(object, object_name)[index] = event.added
                 except:
                     pass
 
